@@ -40,6 +40,10 @@ var (
 	regexes = []string{".*", "^b", "[0-9]+", "b$", "^$", "("}
 )
 
+// bucket names that are prefixes of each other and of keys ("a"+"bab" =
+// "ab"+"ab"), the empty name, and a name containing the list separator
+var isoBuckets = []string{"a", "ab", "", "a|b", "b"}
+
 type gen struct {
 	c    cfg
 	r    *rand.Rand
@@ -49,10 +53,34 @@ type gen struct {
 	// noSMove: set histories without SMove (whose known deviation F-C06-2
 	// makes memory and log disagree, which Merge then turns into data loss)
 	noSMove bool
+	noSPop  bool
+	focus   map[string]string
 	images  int
+	seed0   int64
+	configs int
+	// forceOpt, when set, overrides the randomly chosen storage options (C19)
+	forceOpt func(o *nutsdb.Options)
 }
 
 func pick(r *rand.Rand, xs []string) string { return xs[r.Intn(len(xs))] }
+
+// fpick picks from xs, but inside a "focused" transaction it returns the
+// transaction's single target for this slot most of the time, so that the
+// operations of one transaction hit the same bucket/key/member repeatedly
+// (add-remove-add of one member, pop of what was just pushed, ...).
+func (g *gen) fpick(slot string, xs []string) string {
+	if g.focus != nil {
+		if v, ok := g.focus[slot]; ok && g.r.Intn(10) < 9 {
+			return v
+		}
+		v := pick(g.r, xs)
+		if _, ok := g.focus[slot]; !ok {
+			g.focus[slot] = v
+		}
+		return v
+	}
+	return pick(g.r, xs)
+}
 
 func modeOf(s string, r *rand.Rand) nutsdb.EntryIdxMode {
 	switch s {
@@ -83,8 +111,8 @@ func (g *gen) val() []byte { return []byte(pick(g.r, vals)) }
 
 // kvWrite performs one random KV write inside t.
 func (g *gen) kvWrite(t *hx.Tx) {
-	b := pick(g.r, g.u.KvBuckets)
-	k := []byte(pick(g.r, kvKeys))
+	b := g.fpick("kvb", g.u.KvBuckets)
+	k := []byte(g.fpick("kvk", kvKeys))
 	now := uint64(time.Now().Unix())
 	switch g.r.Intn(10) {
 	case 0, 1:
@@ -178,6 +206,9 @@ func (g *gen) newSess(dir string, mode nutsdb.EntryIdxMode, rw nutsdb.RWMode, se
 	opt.SegmentSize = seg
 	opt.SyncEnable = g.r.Intn(4) == 0
 	opt.StartFileLoadingMode = nutsdb.RWMode(g.r.Intn(2))
+	if g.forceOpt != nil {
+		g.forceOpt(&opt)
+	}
 	g.s.Opt = opt
 	g.s.U = g.u
 }
@@ -363,7 +394,7 @@ var stVals = []string{"a", "b", "", "m|n", "c"}
 
 // lsMut performs one random mutating list call.
 func (g *gen) lsMut(t *hx.Tx) {
-	b, k := pick(g.r, g.u.LsBuckets), pick(g.r, g.u.LsKeys)
+	b, k := g.fpick("lsb", g.u.LsBuckets), g.fpick("lsk", g.u.LsKeys)
 	n := g.lsSize(t, b, k)
 	switch g.r.Intn(12) {
 	case 0, 1, 2:
@@ -409,11 +440,11 @@ func (g *gen) lsReads(t *hx.Tx, full bool) {
 }
 
 func (g *gen) stMut(t *hx.Tx) {
-	b, k := pick(g.r, g.u.StBuckets), pick(g.r, g.u.StKeys)
+	b, k := g.fpick("stb", g.u.StBuckets), g.fpick("stk", g.u.StKeys)
 	items := func() [][]byte {
-		vs := [][]byte{[]byte(pick(g.r, stVals))}
+		vs := [][]byte{[]byte(g.fpick("stv", stVals))}
 		for g.r.Intn(3) == 0 {
-			vs = append(vs, []byte(pick(g.r, stVals)))
+			vs = append(vs, []byte(g.fpick("stv", stVals)))
 		}
 		return vs
 	}
@@ -427,7 +458,13 @@ func (g *gen) stMut(t *hx.Tx) {
 	case 4, 5:
 		t.SRem(b, k, items()...)
 	case 6:
-		t.SPop(b, k)
+		if g.noSPop {
+			// SPop's choice is legitimately nondeterministic (map order):
+			// product runs, which compare configurations event by event, avoid it
+			t.SRem(b, k, items()...)
+		} else {
+			t.SPop(b, k)
+		}
 	case 7, 8:
 		t.SMove(b, k, b, pick(g.r, g.u.StKeys), []byte(pick(g.r, stVals)), false)
 	default:
@@ -457,13 +494,13 @@ func (g *gen) stReads(t *hx.Tx, full bool) {
 }
 
 func (g *gen) zMut(t *hx.Tx) {
-	b := pick(g.r, g.u.ZsBuckets)
+	b := g.fpick("zsb", g.u.ZsBuckets)
 	n := g.zCard(t, b)
 	switch g.r.Intn(10) {
 	case 0, 1, 2, 3, 4:
-		t.ZAdd(b, []byte(pick(g.r, zKeys)), float64(g.r.Intn(4)-1), []byte(pick(g.r, vals)))
+		t.ZAdd(b, []byte(g.fpick("zsk", zKeys)), float64(g.r.Intn(4)-1), []byte(pick(g.r, vals)))
 	case 5, 6:
-		t.ZRem(b, pick(g.r, zKeys))
+		t.ZRem(b, g.fpick("zsk", zKeys))
 	case 7:
 		t.ZRemRangeByRank(b, g.idx(n), g.idx(n))
 	case 8:
@@ -605,6 +642,8 @@ type mixOpts struct {
 	pMerge    int      // percent chance of a Merge after a transaction
 	pROMut    int      // percent chance that a read-only tx calls mutating APIs
 	faults    bool     // inject I/O faults into commits
+	buckets   []string // adversarial bucket names used for every structure (C04)
+	obsAlways bool     // full observation of every bucket after every transaction
 }
 
 func (g *gen) mutOne(t *hx.Tx, kinds []string) {
@@ -677,6 +716,13 @@ func (g *gen) histMixed(o mixOpts) {
 	if !hasDS {
 		g.u = &hx.Universe{KvBuckets: []string{"b1", "b2"}}
 	}
+	if o.buckets != nil {
+		g.u = &hx.Universe{KvBuckets: o.buckets}
+		if hasDS {
+			g.u = &hx.Universe{KvBuckets: o.buckets, LsBuckets: o.buckets, StBuckets: o.buckets, ZsBuckets: o.buckets,
+				LsKeys: []string{"a", "l1"}, StKeys: []string{"a", "ab"}}
+		}
+	}
 	seg := int64(192 + g.r.Intn(4)*128)
 	dir := fmt.Sprintf("%s/db-%d", g.c.Tmp, g.hist)
 	os.RemoveAll(dir)
@@ -723,16 +769,24 @@ func (g *gen) histMixed(o mixOpts) {
 			if fate == "oversize" {
 				bigAt = g.r.Intn(nops)
 			}
+			kinds := o.kinds
+			if nops > 1 && g.r.Intn(3) == 0 {
+				// a focused transaction: several operations on one target
+				g.focus = map[string]string{}
+				kinds = []string{pick(g.r, o.kinds)}
+				nops += 1 + g.r.Intn(3)
+			}
 			for j := 0; j < nops; j++ {
 				if j == bigAt {
 					t.Put(pick(g.r, g.u.KvBuckets), []byte(pick(g.r, kvKeys)), big, 0)
 				} else {
-					g.mutOne(t, o.kinds)
+					g.mutOne(t, kinds)
 				}
 				if g.r.Intn(100) < o.pInTxRead {
 					g.readSome(t, o.kinds, false)
 				}
 			}
+			g.focus = nil
 			switch fate {
 			case "rollback":
 				t.Rollback()
@@ -774,7 +828,7 @@ func (g *gen) histMixed(o mixOpts) {
 			g.afterFinish(t)
 		}
 		g.view(func(t *hx.Tx) { g.readSome(t, o.kinds, g.r.Intn(6) == 0) })
-		if g.r.Intn(3) == 0 {
+		if o.obsAlways || g.r.Intn(3) == 0 {
 			g.s.Obs()
 		}
 		if g.r.Intn(6) == 0 {
@@ -858,10 +912,11 @@ func main() {
 		os.Exit(2)
 	}
 	g := &gen{c: c, r: rand.New(rand.NewSource(c.Seed)), s: &hx.Sess{R: rec}}
+	g.seed0 = c.Seed
 	writeSummary := func() {
 		if c.Summary != "" {
 			b, _ := json.Marshal(map[string]interface{}{"events": rec.N, "by_op": rec.Cnt, "histories": c.Hist, "panics": g.s.Panics,
-				"nontrivial": map[string]int{"crash_images": g.images}})
+				"nontrivial": map[string]int{"crash_images": g.images, "configs": g.configs}})
 			os.WriteFile(c.Summary, b, 0644)
 		}
 	}
@@ -880,6 +935,8 @@ func main() {
 			g.histKV()
 		case "fill":
 			g.histFill()
+		case "product", "productkv":
+			g.histProduct(c.Family == "productkv")
 		case "crash": // C10: every structure, process crash at every mutation point
 			g.histCrash(crashOpts{kinds: []string{"kv", "list", "set", "zset"}, sameMs: true, allTorn: g.c.AllTorn})
 		case "crashkv":
@@ -899,6 +956,12 @@ func main() {
 			g.histDS(c.Family)
 		case "mixed": // C08: every structure, multi-operation transactions, reopen
 			g.histMixed(mixOpts{kinds: []string{"kv", "list", "set", "zset"}, pMulti: 50, pNoCommit: 10, pROMut: 0})
+		case "listmulti", "setmulti", "zsetmulti": // C05-C07 through multi-operation (often focused) transactions
+			g.histMixed(mixOpts{kinds: []string{strings.TrimSuffix(c.Family, "multi")}, pMulti: 75, pNoCommit: 8})
+		case "iso": // C04: adversarial bucket names, every structure
+			g.histMixed(mixOpts{kinds: []string{"kv", "list", "set", "zset"}, pMulti: 50, pNoCommit: 10, buckets: isoBuckets, obsAlways: true})
+		case "isokv":
+			g.histMixed(mixOpts{kinds: []string{"kv"}, pMulti: 50, pNoCommit: 10, buckets: isoBuckets, obsAlways: true})
 		case "mixedkv": // C08 in the other index modes
 			g.histMixed(mixOpts{kinds: []string{"kv"}, pMulti: 50, pNoCommit: 10})
 		case "intx": // C13: reads and pops of structures the transaction already modified
